@@ -10,7 +10,7 @@ PROPS_FILE = "theories/Props/C01.v"
 EXTRACT = ("theories/Extract/XC01.v", "c01",
            ["entry_lapjv", "entry_track", "entry_cert", "entry_pm", "entry_wf", "entry_total", "entry_track_ok"])
 PYX = {"_lapjv.pyx": ["reduction_transfer", "augmenting_row_reduction", "augment", "bsearch"]}
-CASE_TIMEOUT = 30
+CASE_TIMEOUT = 150
 S = 30                      # costs are dyadic with at most S fractional bits; the model works on cost * 2^S
 EPS = 1 << (S - 26)         # __eps = sqrt(finfo(float64).eps) = 2^-26, scaled
 RULE = ("sparse n x n problems, n from a skewed distribution 1..12 (thorough ..40): a hidden permutation (so a perfect "
@@ -73,6 +73,10 @@ def _pattern(rng, n, pat):
         pairs |= set((r, c) for r in range(n) for c in range(n) if abs(r - c) <= w)
     elif pat.startswith("bern"):
         p = float(pat[4:])
+        if n > 60:      # sparse large instance without the n^2 Python loop
+            k = rng.binomial(n * n, p)
+            rr = rng.randint(0, n, size=k); cc = rng.randint(0, n, size=k)
+            return pairs | set(zip(rr.tolist(), cc.tolist()))
         pairs |= set((r, c) for r in range(n) for c in range(n) if rng.rand() < p)
     elif pat == "onecand":
         # some rows keep only their hidden candidate, the others are Bernoulli
@@ -158,6 +162,30 @@ def generate(ctx):
     # dense fine-grid stream: the class where the eps band (F6) shows
     for _ in range(ctx.n(300, 3000)):
         cases.append(_lap_case(rng, int(rng.randint(2, 6)), "dense", "fine", int(rng.randint(0, 4))))
+    # large instances (thorough: n up to 200, beyond any small internal buffer) with structured sparse patterns
+    for _ in range(ctx.n(6, 60)):
+        n = int(rng.randint(ctx.n(30, 60), ctx.n(61, 201)))
+        pat = ["band", "ladder", "star", "bern0.1", "onecand", "distinct", "dense"][int(rng.randint(7))]
+        if pat == "dense":
+            n = min(n, ctx.n(40, 90))
+        if pat in ("onecand", "distinct"):
+            n = min(n, 100)
+        if pat == "bern0.1":
+            pat = "bern%.3f" % (4.0 / n)
+        cases.append(_lap_case(rng, n, pat, KINDS[int(rng.randint(len(KINDS)))], int(rng.randint(0, 4))))
+        cases[-1]["big"] = 1
+    # state between calls: one worker process runs the cases in order, so alternating large / tiny sizes and a
+    # repeated input exercise buffers or caches kept from one call to the next (every call is compared with the model)
+    for _ in range(ctx.n(3, 12)):
+        first = _lap_case(rng, int(rng.randint(20, ctx.n(41, 121))), "band", "small", 2)
+        blk = [first]
+        for q in range(8):
+            n = int(rng.randint(1, 4)) if q % 2 == 0 else int(rng.randint(15, ctx.n(41, 121)))
+            blk.append(_lap_case(rng, n, PATTERNS[int(rng.randint(len(PATTERNS)))], KINDS[int(rng.randint(len(KINDS)))], int(rng.randint(0, 4))))
+        blk.append(dict(first))
+        for c in blk:
+            c["seq"] = 1
+        cases.extend(blk)
     # the model's `while` loops run on fuel: a price war in augmenting row reduction (reduced-cost gaps just
     # above eps, next candidate far away) needs ~range/gap iterations; such inputs are excluded here, counted
     keep = []
@@ -172,9 +200,16 @@ def generate(ctx):
         if c["fn"] == "lap":
             ctx.count("lap:%s" % c.get("pat", "corpus")); ctx.count("cost:%s" % c.get("kind", "corpus"))
             ctx.count("cdt:%s" % c.get("cdt", "list")); ctx.count("idt:%s" % c.get("idt", "list")); ctx.count("lay:%s" % c.get("lay", "c"))
-            ctx.count("k=%d" % c["k"]); ctx.count("n<=%d" % (2 if c["n"] <= 2 else 6 if c["n"] <= 6 else 12 if c["n"] <= 12 else 40))
+            ctx.count("k=%d" % c["k"]); ctx.count("n<=%d" % (2 if c["n"] <= 2 else 6 if c["n"] <= 6 else 12 if c["n"] <= 12 else 40 if c["n"] <= 40 else 100 if c["n"] <= 100 else 200))
+            if c.get("seq"):
+                ctx.count("lap:alternating-sizes-block")
         else:
-            ctx.count("track:%s" % c.get("cls", "corpus")); ctx.count("track-dt:%s/%s" % (c.get("dt", "int64"), c.get("lay", "c")))
+            ctx.count("track:%s" % c.get("cls", "corpus"))
+            if c.get("gaps"):
+                ctx.count("track-gaps:%s" % c["gaps"].split("/")[0])
+            if c.get("many"):
+                ctx.count("track:many-objects(>300)")
+            ctx.count("track-dt:%s/%s" % (c.get("dt", "int64"), c.get("lay", "c")))
     return cases
 
 
@@ -252,6 +287,45 @@ def _track_cases(ctx):
                 b = _label_image(rng, h, w, int(rng.choice([0, 1, 2, 4, 7, 11])), int(rng.choice([2, 4, 9])))
                 cls = "unrelated"
             cases.append({"fn": "track", "cls": cls, "a": a.tolist(), "b": b.tolist()})
+    # label numbering with gaps at the start / in the middle / at the end, and offsets (absent numbers must not
+    # shift the features of the present ones)
+    for t in range(ctx.n(24, 120)):
+        h, w = int(rng.randint(20, 70)), int(rng.randint(20, 70))
+        a = _label_image(rng, h, w, int(rng.choice([3, 5, 8, 12])), int(rng.choice([2, 3, 5])))
+        m = int(a.max())
+        if m < 3:
+            continue
+        def gap(img, where):
+            img = img.copy(); mm = int(img.max())
+            kill = {"start": [1], "start2": [1, 2], "middle": [mm // 2 + 1], "end": [mm], "offset": [], "several": [1, mm // 2 + 1, mm]}[where]
+            for l in kill:
+                img[img == l] = 0
+            if where == "offset":
+                img[img > 0] += int(rng.randint(1, 9))
+            return img
+        wa = ["start", "start2", "middle", "end", "offset", "several"][t % 6]
+        wb = ["start", "start2", "middle", "end", "offset", "several"][int(rng.randint(6))]
+        ga = gap(a, wa)
+        if t % 2 == 0 and _distinct_features(ga):
+            cases.append({"fn": "track", "cls": "identical", "gaps": wa, "a": ga.tolist(), "b": ga.tolist()})
+        else:
+            cases.append({"fn": "track", "cls": "moved", "gaps": wa + "/" + wb, "a": ga.tolist(),
+                          "b": gap(np.roll(a, int(rng.randint(-2, 3)), 1), wb).tolist()})
+    # many objects (> 300 per frame; the assignment problem has > 600 rows, > 10^5 triples); 2 improvement iterations
+    for t in range(ctx.n(1, 4)):
+        hh = int(rng.choice([300, 400])); step = 16 if hh == 300 else 22
+        a = np.zeros((hh, hh), int); k = 0
+        for y0 in range(2, hh - 4, step):
+            for x0 in range(2, hh - 4, step):
+                k += 1
+                a[y0:y0 + 2 + (k % 3), x0:x0 + 2 + (k % 2) + (k % 5 == 0)] = k
+        if t % 2 == 0:
+            assert _distinct_features(a)
+            cases.append({"fn": "track", "cls": "identical", "many": int(a.max()), "iters": 2, "a": a.tolist(), "b": a.tolist()})
+        else:
+            b = np.roll(a, 1, 0)
+            b[b == int(rng.randint(1, k + 1))] = 0
+            cases.append({"fn": "track", "cls": "moved", "many": int(a.max()), "iters": 2, "a": a.tolist(), "b": b.tolist()})
     # frames without objects: both empty, first empty (F11, fixed in /repo 2730541), second empty -> the empty map
     for _ in range(ctx.n(9, 45)):
         h, w = int(rng.randint(3, 40)), int(rng.randint(3, 40))
@@ -286,6 +360,16 @@ def _enc(f):
     if (num << S) % den:
         raise ValueError("dual %r is not a multiple of 2^-%d" % (f, S))
     return [(num << S) // den]
+
+
+def _py_pm(c):
+    """perfect-matching test in Python for the tracker's very large solver calls (the extracted checker works on
+    unary naturals and is quadratic there)"""
+    n = max(c["i"]) + 1
+    listed = set(zip(c["i"], c["j"]))
+    x, y = c["x"], c["y"]
+    return (len(x) == n and len(y) == n and sorted(x) == list(range(n))
+            and all(y[x[r]] == r for r in range(n)) and all((r, x[r]) in listed for r in range(n)))
 
 
 def _hand(vals, dt, lay):
@@ -375,7 +459,23 @@ def impl(case):
         b = _hand2(case["b"], case.get("dt", "int64"), case.get("lay", "c"))
         a0, b0 = a.copy(), b.copy()
         tr = T.NeighbourMovementTracking()
+        if case.get("iters") is not None:
+            tr.parameters_tracking["iterations"] = case["iters"]
         res = tr.run_tracking(a, b)
+        # the detections the tracker works on: (label number, area, centroid) of every present label
+        for img in (a, b):
+            ii = img.astype(int)
+            feats = T.CellFeatures.from_labels(img)
+            got = [(int(f.number), float(f.area), float(f.center[0]), float(f.center[1])) for f in feats]
+            exp = []
+            for l in np.unique(ii):
+                if l != 0:
+                    ys, xs = np.nonzero(ii == l)
+                    exp.append((int(l), float(len(ys)), float(ys.mean()), float(xs.mean())))
+            if [g[:2] for g in got] != [e[:2] for e in exp]:
+                sparse_bad.append("detections (label, area) %s differ from the label image's %s" % ([g[:2] for g in got][:6], [e[:2] for e in exp][:6]))
+            elif any(abs(g[2] - e[2]) > 1e-9 * (1 + abs(e[2])) or abs(g[3] - e[3]) > 1e-9 * (1 + abs(e[3])) for g, e in zip(got, exp)):
+                sparse_bad.append("detection centroids differ from the label image's")
         if not (np.array_equal(a, a0) and np.array_equal(b, b0)):
             sparse_bad.append("run_tracking modified a label image")
     finally:
@@ -386,7 +486,9 @@ def impl(case):
     last = {k: calls[-1][k] for k in ("x", "y")} if calls else None
     return {"pairs": [[int(p), int(q)] for p, q in res], "labs1": labs1, "labs2": labs2, "ncalls": len(calls),
             "last": last, "sparse_bad": sparse_bad[:3],
-            "calls_pm": [[max(c["i"]) + 1, [[a_, b_, 0] for a_, b_ in zip(c["i"], c["j"])], c["x"], c["y"]] for c in calls[:3] + calls[-1:]]}
+            "calls_pm": [[max(c["i"]) + 1, [[a_, b_, 0] for a_, b_ in zip(c["i"], c["j"])], c["x"], c["y"]]
+                         for c in calls[:3] + calls[-1:] if max(c["i"]) < 150],
+            "big_pm_ok": all(_py_pm(c) for c in calls if max(c["i"]) >= 150)}
 
 
 def _bad(o):
@@ -635,6 +737,8 @@ def check(ctx, cases, outs):
         o = outs[k]
         if r != 1:
             res[k] = "tracker result is not a functional injective map (Spec.Lapjv.track_ok false): %s" % (o["pairs"][:10],)
+        elif not o.get("big_pm_ok", True):
+            res[k] = "a (large) solver call made by the tracker did not return a perfect matching over listed pairs"
         elif o["sparse_bad"]:
             res[k] = "tracker: " + o["sparse_bad"][0]
         elif any(p not in o["labs1"] or q not in o["labs2"] for p, q in o["pairs"]):
